@@ -447,7 +447,9 @@ class Check:
                    traces_validated_against_impl=self.traces, evaluations=self.events,
                    distinct_nontrivial=len(self.classes), rule=rule, samples=self.samples[:6] or [{"note": "no sample recorded"}],
                    judged_per_kind=self.judged, small_world_runs=self.sw_runs, exhaustive=self.exhaustive,
-                   trusted_base=trusted or ["TLC/SANY", "JDK SHA-256 and BigInteger (accelerators cross-checked against the TLA+ definitions by SelfTest*)", "the Go driver as a sensor"],
+                   trusted_base=trusted or ["TLC/SANY and the CommunityModules operators (FoldLeft, Json, IOUtils)",
+                                            "Java accelerators (BigInteger arithmetic, curve arithmetic, SHA-256) - not axioms: each is compared with its pure TLA+ definition by ./check selftest",
+                                            "the Go driver as a sensor (logging of inputs/outputs through read-only hooks, recover, watchdog)"],
                    foreign_deviations=len(self.foreign), known_findings=len(kn), notes=self.notes)
         cov.update(self.extra)
         evd = dict(property_id=self.prop, tier=self.tier, seed=self.seed, level=level, coverage=cov,
